@@ -19,6 +19,7 @@ def main():
     seed = int(os.environ.get('VERIF_SEED', '0') or 0)
     prop = a.prop.upper()
     warnings.filterwarnings('ignore')
+    rp_loaded = json.load(open(a.replay)) if a.replay else None   # read before Result() removes the stale replays of this property
     res = common.Result(prop, a.tier, seed)
     res.trusted = list(common.GLOBAL_TRUSTED)
     try:
@@ -32,8 +33,7 @@ def main():
         res.oblige('rainflow extension builds from extension.pyx', False, repr(e))
     try:
         if a.replay:
-            rp = json.load(open(a.replay))
-            return mod.replay(res, rp)
+            return mod.replay(res, rp_loaded)
         mod.run(res)
     except Exception as e:   # the machinery itself broke: never report OK
         traceback.print_exc()
